@@ -78,6 +78,9 @@ theorem write_then_read (s : FS) (c c' : Choice) (fh : Bytes) (off count stable 
               simp; omega
             have hlt : ¬ off ≥ max (s.get i).size (off + count) := by omega
             simp only [hlt, if_false]
+            have hmin : min count s.wtmax = count := by
+              simp only [maxWrite] at h1; omega
+            simp only [set_wtmax, hmin]
             have hn : (if off + count ≥ max (s.get i).size (off + count)
                 then max (s.get i).size (off + count) - off else count) = count := by
               split <;> omega
